@@ -38,6 +38,7 @@ type secDoc struct {
 	human     bool
 	infoTitle string
 	nItems    int
+	boundary  []string // passwords differing from a 120..135 byte password around byte 127
 
 	// results of writing
 	data      []byte
@@ -186,8 +187,35 @@ func genSecDoc(r *Rand, idx int) *secDoc {
 	d.human = r.P(1, 5)
 	d.infoTitle = string(newNeedle(r, 20))
 	d.nItems = 3 + r.Intn(8)
+	if idx >= secBoundaryIdx {
+		// revision 6 with passwords around the 127-byte truncation
+		d.version = pdf.V2_0
+		b := genBoundaryPassword(r)
+		d.boundary = b.variants
+		switch idx % 3 {
+		case 0:
+			d.user, d.owner = b.pw, genPassword(r)
+		case 1:
+			d.user, d.owner = genPassword(r), b.pw
+		default:
+			d.user, d.owner = b.pw, ""
+		}
+		if _, ok := prepKey(6, d.user); !ok {
+			d.user = "u"
+		}
+		if _, ok := prepKey(6, d.owner); !ok {
+			d.owner = "o"
+		}
+		if d.user == "" && d.owner == "" {
+			d.owner = "owner"
+		}
+		d.nItems = 2
+	}
 	return d
 }
+
+// documents with index >= secBoundaryIdx are made for the password truncation boundary
+const secBoundaryIdx = 1000000
 
 func (d *secDoc) describe() string {
 	return fmt.Sprintf("v=%s user=%q owner=%q perm=%d ids=%d meta=%v plain=%v human=%v items=%d",
@@ -225,7 +253,12 @@ func (d *secDoc) doWrite(rec *recRand, r *Rand) (err error) {
 		}
 		opt.DocumentMetadata = &pdf.MetadataStream{Data: packet, Plaintext: d.plainMeta}
 	}
-	out := &memWriter{}
+	// plain buffer (stream lengths go to separate objects when the dictionary is written before
+	// the data) or a seekable one (the Placeholder is filled in afterwards)
+	var out secOutput = &memWriter{}
+	if r.P(1, 3) {
+		out = &memSeekWriter{}
+	}
 	w, err := pdf.NewWriter(out, d.version, opt)
 	if err != nil {
 		return err
@@ -292,8 +325,123 @@ func (d *secDoc) doWrite(rec *recRand, r *Rand) (err error) {
 		return ref
 	}
 
+	// dictStrings: a stream dictionary with 1-3 strings, some nested in arrays and dictionaries
+	dictStrings := func() pdf.Dict {
+		dict := pdf.Dict{"S1": d.genSecString(r, shared)}
+		if r.Bool() {
+			dict["Arr"] = pdf.Array{pdf.Integer(1), d.genSecString(r, shared)}
+		}
+		if r.Bool() {
+			dict["Sub"] = pdf.Dict{"In": pdf.Array{pdf.Dict{"Deep": d.genSecString(r, shared)}}}
+		}
+		return dict
+	}
+	// cryptSkip writes a stream which is exempt from the default stream encryption (filter chain
+	// starting with /Crypt /Identity: through OpenStream's filters, alone or followed by another
+	// filter, or as a "copied" stream whose dictionary already says /Filter /Crypt); the strings
+	// of its dictionary must still be encrypted under its own (number, generation).  It is always
+	// written after an object with a different number.
+	nSkip := 0
+	cryptSkip := func() error {
+		prev := newRef()
+		pobj := pdf.Dict{"Prev": d.genSecString(r, shared)}
+		if err := w.Put(prev, pobj); err != nil {
+			return err
+		}
+		d.written = append(d.written, secWritten{ref: prev, obj: pobj})
+		ref := newRef()
+		dict := dictStrings()
+		body := newNeedle(r, 20+r.Intn(60))
+		variant := r.Intn(4)
+		if d.version < pdf.V1_5 {
+			variant = 2 + r.Intn(2) // the Crypt filter of OpenStream needs PDF 1.5
+		}
+		switch variant {
+		case 0, 1:
+			filters := []pdf.Filter{pdf.FilterCryptIdentity{}}
+			if variant == 1 {
+				filters = append(filters, Pick(r, []pdf.Filter{pdf.FilterFlate{}, pdf.FilterASCIIHex{}}))
+			} else {
+				d.visible = append(d.visible, body)
+			}
+			sw, err := w.OpenStream(ref, dict, filters...)
+			if err != nil {
+				return fmt.Errorf("OpenStream(Crypt) %v: %w", ref, err)
+			}
+			if _, err := sw.Write(body); err != nil {
+				return err
+			}
+			if err := sw.Close(); err != nil {
+				return err
+			}
+		default:
+			// a stream as the Copier hands it over: encoded data, /Filter in the dictionary
+			data := body
+			if variant == 3 {
+				dict["Filter"] = pdf.Array{pdf.Name("Crypt"), pdf.Name("ASCIIHexDecode")}
+				data = []byte(fmt.Sprintf("%x>", body))
+			} else {
+				dict["Filter"] = pdf.Name("Crypt")
+				d.visible = append(d.visible, body)
+			}
+			given := pdf.Dict{}
+			for k, v := range dict {
+				given[k] = v
+			}
+			if err := w.Put(ref, pdf.NewStream(given, data)); err != nil {
+				return fmt.Errorf("Put(Crypt stream) %v: %w", ref, err)
+			}
+		}
+		d.written = append(d.written, secWritten{ref: ref, obj: dict, isStream: true, body: body, cryptIdent: true})
+		nSkip++
+		return nil
+	}
+
 	for i := 0; i < d.nItems; i++ {
-		switch r.Intn(5) {
+		switch r.Intn(8) {
+		case 5:
+			if err := cryptSkip(); err != nil {
+				return err
+			}
+		case 6: // Put while a stream is open: written after the stream, with its own key
+			ref := newRef()
+			dict := dictStrings()
+			body := r.Bytes(r.Intn(1500))
+			sw, err := w.OpenStream(ref, dict)
+			if err != nil {
+				return err
+			}
+			ref2 := newRef()
+			obj2 := dictStrings()
+			if err := w.Put(ref2, obj2); err != nil {
+				return fmt.Errorf("deferred Put %v: %w", ref2, err)
+			}
+			if _, err := sw.Write(body); err != nil {
+				return err
+			}
+			if err := sw.Close(); err != nil {
+				return err
+			}
+			d.written = append(d.written, secWritten{ref: ref, obj: dict, isStream: true, body: body},
+				secWritten{ref: ref2, obj: obj2})
+		case 7: // an object stream directly followed by a stream and an object
+			refs := []pdf.Reference{w.Alloc(), w.Alloc()}
+			objs := []pdf.Object{dictStrings(), dictStrings()}
+			if err := w.WriteCompressed(refs, objs...); err != nil {
+				return err
+			}
+			inStm := d.version >= pdf.V1_5 && !d.human
+			for j := range refs {
+				d.written = append(d.written, secWritten{ref: refs[j], obj: objs[j], inObjStm: inStm})
+			}
+			ref := newRef()
+			dict := dictStrings()
+			body := newNeedle(r, 30)
+			d.needles = append(d.needles, body)
+			if err := w.Put(ref, pdf.NewStream(copyDict(dict), body)); err != nil {
+				return err
+			}
+			d.written = append(d.written, secWritten{ref: ref, obj: dict, isStream: true, body: body})
 		case 0, 1: // direct object
 			ref := newRef()
 			obj := d.genSecObj(r, 3, shared)
@@ -386,11 +534,24 @@ func (d *secDoc) doWrite(rec *recRand, r *Rand) (err error) {
 			}
 		}
 	}
+	if nSkip == 0 {
+		if err := cryptSkip(); err != nil {
+			return err
+		}
+	}
 	if err := w.Close(); err != nil {
 		return fmt.Errorf("Close: %w", err)
 	}
 	d.data = out.Bytes()
 	return nil
+}
+
+func copyDict(d pdf.Dict) pdf.Dict {
+	res := pdf.Dict{}
+	for k, v := range d {
+		res[k] = v
+	}
+	return res
 }
 
 func (d *secDoc) open(pw string) (*pdf.Reader, error) {
